@@ -78,6 +78,9 @@ func (SlidingWindow) New(cfg Config) fiber.Handler {
 		// Calculate when it resets in seconds
 		resetInSec := e.exp - ts
 
+		// Remember the window this hit is counted in
+		hitExp := e.exp
+
 		// weight = time until current window reset / total window length
 		weight := float64(resetInSec) / float64(expiration)
 
@@ -124,9 +127,17 @@ func (SlidingWindow) New(cfg Config) fiber.Handler {
 			// Lock entry
 			mux.Lock()
 			e = manager.get(key)
-			e.currHits--
-			remaining++
-			manager.set(key, e, cfg.Expiration)
+			// Only give the hit back to the window it was counted in. If that window
+			// is over (or the entry is gone) there is nothing left to decrement.
+			if e.exp == hitExp && e.currHits > 0 {
+				e.currHits--
+				remaining++
+				// Keep the entry until the end of the next window, exactly as above,
+				// so the previous window is neither forgotten early nor kept too long.
+				if now := uint64(utils.Timestamp()); e.exp+expiration > now {
+					manager.set(key, e, time.Duration(e.exp+expiration-now)*time.Second) //nolint:gosec // Not a concern
+				}
+			}
 			// Unlock entry
 			mux.Unlock()
 		}
